@@ -260,7 +260,7 @@ def cmdEval (sess : Session) (text : List Char) (stopOnSignal : Bool) : String Ã
   let out := hexChars st.out
   let dbg := messagesString st.sent
   let st := { st with out := [], sent := [] }
-  (s!"{" ".intercalate results} | end={status} out={out} cur={hexChars st.current} dbg={dbg}", { sess with st := st })
+  (s!"{" ;; ".intercalate results} | end={status} out={out} cur={hexChars st.current} dbg={dbg}", { sess with st := st })
 
 def cmdRead (words : List String) : Option String := do
   let text â† unhexChars (â† words[0]?)
